@@ -202,6 +202,47 @@ def step (s : State) : Op → State × Obs
 
 def run (s : State) (ops : List Op) : State := ops.foldl (fun st op => (step st op).1) s
 
+/-! ## The standby's connection loop (`standbyLoop`)
+
+  for { performFullSync (on error: waitReconnect, continue); connectToStream (returns when the stream could not be
+  established or has ended: waitReconnect, continue) }.  The events are what the standby's two requests come back
+  with; `toOps` is what each event means for the data model above. -/
+
+inductive Pc where
+  | top          -- about to call performFullSync
+  | afterSync    -- full sync succeeded, about to call connectToStream
+  | streaming    -- inside connectToStream, reading the stream
+  | waiting      -- in waitReconnect
+  deriving DecidableEq, Repr
+
+inductive LoopEv where
+  | syncOk | syncFail          -- GET /ha/sessions answered 200 and applied | failed
+  | streamOk | streamFail      -- GET /ha/sessions/stream answered 200 | refused / not 200
+  | streamEnd                  -- the established stream ended
+  | wake                       -- the back-off is over
+  deriving DecidableEq, Repr
+
+def loopStep : Pc → LoopEv → Option Pc
+  | .top, .syncOk => some .afterSync
+  | .top, .syncFail => some .waiting
+  | .afterSync, .streamOk => some .streaming
+  | .afterSync, .streamFail => some .waiting
+  | .streaming, .streamEnd => some .waiting
+  | .waiting, .wake => some .top
+  | _, _ => none
+
+def loopRun : Pc → List LoopEv → Option Pc
+  | pc, [] => some pc
+  | pc, e :: rest => match loopStep pc e with
+    | some pc' => loopRun pc' rest
+    | none => none
+
+def LoopEv.toOps : LoopEv → List Op
+  | .syncOk => [.fullSync]
+  | .streamOk => [.attach]
+  | .streamEnd => [.disconnect]
+  | _ => []
+
 /-! ## The monitor: the property, judged on observations only
 
   It sees the operations the harness issued (the active's operation log, the connect/disconnect schedule)
@@ -215,6 +256,7 @@ structure Mon where
   pend   : List Msg := []
   strm   : Option (List Msg) := none
   synced : Bool := false           -- a full sync completed and the stream has not been lost since
+  snapFresh : Bool := false        -- a snapshot request was answered 200 since the last stream end / stream failure
   deriving Repr
 
 inductive Ev where
@@ -228,6 +270,8 @@ inductive Ev where
   | table (store : List (Nat × Nat))          -- standby table, sorted by id
   | fullSyncedBlind                           -- a full sync completed; the table right after it was not observed
   | drained                                   -- the harness waited until the stream had nothing left (end to end)
+  | requests (l : List (Bool × Nat))          -- the standby's requests as the network saw them complete, in order:
+                                              -- (is it the stream request?, HTTP status)
   | nop
   deriving Repr
 
@@ -259,7 +303,18 @@ def check (m : Mon) : Ev → Mon × List Verdict
      if st = sorted m.act then []
      else [("fullsync-differs", s!"after the full sync the standby holds {showTable st}, the active's snapshot is {showTable (sorted m.act)}")])
   | .attached => ({ m with strm := some [] }, [])
-  | .disconnected => ({ m with strm := none, synced := false }, [])
+  | .disconnected => ({ m with strm := none, synced := false, snapFresh := false }, [])
+  | .requests l =>
+    l.foldl (fun (acc : Mon × List Verdict) (r : Bool × Nat) =>
+      let (m, vs) := acc
+      match r with
+      | (false, 200) => ({ m with snapFresh := true }, vs)
+      | (false, _) => (m, vs)
+      | (true, 200) =>
+        ({ m with snapFresh := false },
+         if m.snapFresh then vs else
+          vs ++ [("stale-attach", "the stream was established (GET /ha/sessions/stream 200) with no successful full sync (GET /ha/sessions 200) since the last stream end or failed stream attempt")])
+      | (true, _) => ({ m with snapFresh := false }, vs)) (m, [])
   | .applied kind k v seq =>
     match m.strm with
     | none => (m, [("order", s!"change {seq} applied with no stream attached")])
